@@ -274,6 +274,39 @@ func derivesFromRange(v ssa.Value) bool {
 }
 
 func c19Health(p *core.Prog, r *core.Report) {
+	// the health options a connection runs with went through withDefaults()
+	// when the connection was created (options can be changed on a live
+	// channel through Channel.ConnectionOptions(); a zero FailuresToClose
+	// would close at the first failure, a zero Timeout fail every ping)
+	if nc := mustFunc(p, r, "", "Channel", "newConnection"); nc != nil {
+		optsF := p.Field("", "Connection", "opts")
+		ok := false
+		core.EachInstr(nc, func(i ssa.Instruction) {
+			if st, isSt := i.(*ssa.Store); isSt && core.AddrField(st.Addr) == optsF {
+				v := st.Val
+				for d := 0; d < 4; d++ {
+					if u, isU := v.(*ssa.UnOp); isU && u.Op == token.MUL {
+						if al, isAl := u.X.(*ssa.Alloc); isAl {
+							for _, ref := range *al.Referrers() {
+								if s2, isS := ref.(*ssa.Store); isS && s2.Addr == ssa.Value(al) {
+									v = s2.Val
+								}
+							}
+							continue
+						}
+					}
+					break
+				}
+				if callResult(v, "ConnectionOptions.withDefaults") != nil {
+					ok = true
+				}
+			}
+		})
+		if hw := p.Func("", "ConnectionOptions", "withDefaults"); hw != nil {
+			ok = ok && len(core.CallsIn(hw, "HealthCheckOptions.withDefaults")) > 0
+		}
+		r.Check(ok, "C19-R3", fname(nc), "connection options (health defaults included) are defaulted when the connection is created", p.Pos(nc.Pos()), "Connection.opts = connectionOptions.withDefaults()", "a connection can run its health checks with undefaulted options (FailuresToClose 0: closed at the first failure)")
+	}
 	f := mustFunc(p, r, "", "Connection", "healthCheck")
 	if f == nil {
 		return
